@@ -196,6 +196,7 @@ def gen_case(r):
 def plan(tier, seed):
     q = tier == "quick"
     specs = [{"kind": "history", "n": 120 if q else 700, "reps": 20 if q else 100} for _ in range(7 if q else 22)]
+    specs += [{"kind": "stack-depth", "n": 25 if q else 250}]
     specs += [{"kind": "iterators", "n": 120 if q else 700} for _ in range(4 if q else 10)]
     specs += [{"kind": "threads", "n": 12 if q else 60} for _ in range(3 if q else 10)]
     specs += [{"kind": "tasks", "n": 80 if q else 400} for _ in range(2 if q else 6)]
@@ -407,6 +408,60 @@ def same_query_case(ctx, r):
             return
     if ref[0] == "ok" and ref[1]:
         ctx.count("same_query_reentrant_cases_with_matches")
+
+
+def stack_depth_case(ctx, r):
+    """The same compiled query, document and context evaluated from callers at very different stack depths (and from a
+    fresh thread): the answer may be refused (RecursionError is the interpreter's) but, when given, must be the same."""
+    import sys
+    import threading
+
+    import jsonpath
+
+    depth = r.choice([60, 150, 220])
+    shape = r.choice(["arrays", "objects"])
+
+    def nest(leaf):
+        v = leaf
+        for _ in range(depth):
+            v = [v] if shape == "arrays" else {"k": v}
+        return v
+    doc = {"want": nest(1), "items": [nest(2), nest(1), nest(True), nest(1.0)]}
+    text = r.choice(["$.items[?@ == $.want]", "$.items[?@ != $.want]", "$.items[?@ == _.want]", "$.items[?$.want == $.items[1] || # == 0]", "$.items[?@ <= $.want]"])
+    ex = {"want": nest(1)}
+    q = jsonpath.compile(text)
+
+    def run_():
+        return [m.path for m in q.finditer(doc, filter_context=ex)]
+    box = {}
+    t = threading.Thread(target=lambda: box.setdefault("ref", impl.call(run_)))
+    t.start()
+    t.join()
+    ref_ = box["ref"]
+    if not ref_.ok:
+        return
+    lim = sys.getrecursionlimit()
+
+    def at_depth(n):
+        if n <= 0:
+            return impl.call(run_)
+        return at_depth(n - 1)
+    for extra_frames in (0, lim // 4, lim // 2, (5 * lim) // 8, (3 * lim) // 4, (7 * lim) // 8, lim - 60):
+        try:
+            o = at_depth(extra_frames)
+        except RecursionError:
+            continue
+        ctx.evaluation()
+        ctx.count("evaluations_from_deep_callers")
+        if not o.ok:
+            if isinstance(o.exc, RecursionError):
+                ctx.count("deep_caller_refusals")
+                continue
+            ctx.violation("evaluation-raised-from-a-deep-caller:%s" % type(o.exc).__name__, {"kind": "stack-depth"}, {"text": text, "error": o.desc()})
+            return
+        if o.value != ref_.value:
+            ctx.violation("result-depends-on-how-deep-the-caller's-stack-is", {"kind": "stack-depth"}, {"text": text, "nesting_of_compared_values": depth, "caller_frames": extra_frames, "from_a_fresh_thread": ref_.value, "from_the_deep_caller": o.value})
+            return
 
 
 def solo(text, doc, ex):
@@ -760,6 +815,11 @@ def run_tasks(ctx, cases):
 
 
 def run(spec, ctx):
+    if spec["kind"] == "stack-depth":
+        # (without the H4 hook: its shadow re-evaluation would itself run out of stack and turn every deep case into a refusal)
+        for _ in range(spec["n"]):
+            stack_depth_case(ctx, ctx.rng)
+        return
     install()
     r = ctx.rng
     kind = spec["kind"]
@@ -770,6 +830,7 @@ def run(spec, ctx):
             reentrant_case(ctx, r)
         for _ in range(40):
             same_query_case(ctx, r)
+
         # (H4's one-context-per-cell rule assumes the stock match class, whose filter context is one
         # object per evaluation; the per-node class hands out a new mapping per node by design)
         MON.violations.clear()
@@ -820,6 +881,10 @@ def finalize(m, tier):
 
 
 def replay(case, ctx):
+    if case.get("kind") == "stack-depth":
+        for _ in range(40):
+            stack_depth_case(ctx, ctx.rng)
+        return
     install()
     kind = case.get("kind", "history")
     if kind == "per-node-context":
